@@ -44,6 +44,27 @@ const (
 	// 8 little-endian bytes, then returns "test": SUCCESS when the index names a requested validator, FAILURE otherwise
 )
 
+// scriptDesc asks data sources 1, 2, 3 with external ids 3, 1, 2 (not in ascending order); execute returns "test".
+const scriptDesc = 9
+
+var watDescEIDs = `
+(module
+	(type $t0 (func))
+	(type $t1 (func (param i64 i64 i64 i64)))
+	(type $t2 (func (param i64 i64)))
+	(import "env" "ask_external_data" (func $ask_external_data (type $t1)))
+	(import "env" "set_return_data" (func $set_return_data (type $t2)))
+	(func $prepare (export "prepare") (type $t0)
+	  (call $ask_external_data (i64.const 3) (i64.const 1) (i64.const 1024) (i64.const 4))
+	  (call $ask_external_data (i64.const 1) (i64.const 2) (i64.const 1024) (i64.const 4))
+	  (call $ask_external_data (i64.const 2) (i64.const 3) (i64.const 1024) (i64.const 4)))
+	(func $execute (export "execute") (type $t0)
+	  i64.const 1024
+	  i64.const 4
+	  call $set_return_data)
+	(memory $memory (export "memory") 17)
+	(data (i32.const 1024) "test"))`
+
 // probeIndex is the validator index scriptProbe asks about.
 func probeDelta(calldata []byte) (int64, bool) {
 	if len(calldata) != 8 {
@@ -146,7 +167,7 @@ func compiledOracleScripts() [][]byte {
 			}
 			return b
 		}
-		for _, code := range [][]byte{testdata.Wasm1, testdata.Wasm4, w2w(watNoReturn), w2w(watTrap), testdata.Wasm2, testdata.Wasm3, w2w(watEmptyReturn), w2w(watProbe)} {
+		for _, code := range [][]byte{testdata.Wasm1, testdata.Wasm4, w2w(watNoReturn), w2w(watTrap), testdata.Wasm2, testdata.Wasm3, w2w(watEmptyReturn), w2w(watProbe), w2w(watDescEIDs)} {
 			compiledScripts = append(compiledScripts, testdata.Compile(code))
 		}
 	})
@@ -362,7 +383,30 @@ func (a *OracleActor) newRequest(e *Env) {
 	}
 	feeLimit := a.FeeLimit
 	limitKind := "fixed"
-	if a.DSFees != nil {
+	aimed := false
+	if a.DSFees != nil && script == scriptEcho && e.Ch.Bool("oracle.req.limit.aimed", 60) {
+		// aimed at the fee collector's running total: an earlier source charges one denom within the limit, a later source
+		// charges ONLY another denom that the limit does not cover
+		var first, second int64
+		for _, id := range []int64{1, 2, 3, 4} {
+			f := a.DSFees[id]
+			if len(f) == 1 && first == 0 {
+				first = id
+			} else if len(f) == 1 && first != 0 && f[0].Denom != a.DSFees[first][0].Denom {
+				second = id
+			}
+		}
+		if first != 0 && second != 0 {
+			if a.DSFees[first][0].Denom > a.DSFees[second][0].Denom {
+				first, second = second, first
+			}
+			calldata = obi.MustEncode(testdata.Wasm4Input{IDs: []int64{first, second}, Calldata: "cd"})
+			feeLimit = a.costOf(script, calldata, ask)[:1]
+			limitKind, aimed = "later_source_other_denom", true
+			e.St.Fault("fee_limit_lacks_the_denom_of_a_later_data_source")
+		}
+	}
+	if a.DSFees != nil && !aimed {
 		cost := a.costOf(script, calldata, ask)
 		switch e.Ch.Weighted("oracle.req.limit", []int{55, 15, 15, 8, 7}) {
 		case 0:
@@ -404,7 +448,7 @@ func (a *OracleActor) costOf(script int, calldata []byte, ask uint64) sdk.Coins 
 		if err := obi.Decode(calldata, &in); err == nil {
 			ids = in.IDs
 		}
-	case scriptSimple:
+	case scriptSimple, scriptDesc:
 		ids = []int64{1, 2, 3}
 	case scriptNoRet, scriptTrap, scriptEmpty, scriptProbe:
 		ids = []int64{1}
